@@ -8,6 +8,7 @@ import (
 	"runtime/debug"
 
 	"verif/harness/internal/props"
+	"verif/harness/internal/work"
 )
 
 func main() {
@@ -27,6 +28,12 @@ func main() {
 		tier = "quick"
 	}
 	switch os.Args[1] {
+	case "warm": // vcheck warm <dir>: build the base Go build cache (called by setup.sh)
+		if err := work.WarmBase(os.Args[2]); err != nil {
+			fmt.Fprintln(os.Stderr, err)
+			os.Exit(2)
+		}
+		os.Exit(0)
 	case "run":
 		os.Exit(props.Run(os.Args[2], tier))
 	case "selftest":
